@@ -12,7 +12,7 @@ import ipaddress
 from typing import List
 
 from vf.driver import Q
-from vf.h import P, reached, note, lib_errors
+from vf.h import REPLAY, P, reached, note, lib_errors
 from vf import ast2smt as A
 
 import bromelia.types as T
@@ -196,7 +196,7 @@ def bit_test(w: int, bit: int) -> bool:
         reached()
         return not (0 <= bit <= 31)
     reached()
-    note(w=w, bit=bit, observed=repr(r))
+    if REPLAY: note(w=w, bit=bit, observed=repr(r))
     return 0 <= bit <= 31 and r is ((w // 2 ** bit) % 2 == 1)
 
 
@@ -217,7 +217,7 @@ def bit_set(w: int, bit: int) -> bool:
         return False
     after = a.dump()
     exp = w + 2 ** bit
-    note(w=w, bit=bit, observed=after.hex(), expected=exp)
+    if REPLAY: note(w=w, bit=bit, observed=after.hex(), expected=exp)
     return (r == a.data and int.from_bytes(a.data, "big") == exp and len(a.data) == 4
             and after[:-4] == before[:-4] and len(after) == len(before))
 
@@ -307,7 +307,7 @@ def addr_v4(d: List[int]) -> bool:
     a = HostIpAddressAVP(lit)
     reached()
     exp = b"\x00\x01" + bytes(vals)
-    note(literal=lit, observed=a.data.hex(), expected=exp.hex())
+    if REPLAY: note(literal=lit, observed=a.data.hex(), expected=exp.hex())
     return (a.data == exp and a.is_ipv4() is True and a.is_ipv6() is False and a.get_ip_address() == lit
             and a.get_length() == 14 and len(a.dump()) == 16)
 
@@ -355,7 +355,7 @@ def addr_v6(n: List[int]) -> bool:
     a = HostIpAddressAVP(lit)
     reached()
     exp = b"\x00\x02" + bytes(b for v in vals for b in (v // 256, v % 256))
-    note(literal=lit, observed=a.data.hex(), expected=exp.hex())
+    if REPLAY: note(literal=lit, observed=a.data.hex(), expected=exp.hex())
     return (a.data == exp and a.is_ipv6() is True and a.is_ipv4() is False and a.get_length() == 26
             and len(a.dump()) == 28)
 
@@ -372,7 +372,7 @@ def addr_v6_compressed(n: List[int]) -> bool:
     a = HostIpAddressAVP(lit)
     reached()
     exp = b"\x00\x02" + bytes(b for v in vals for b in (v // 256, v % 256))
-    note(literal=lit, observed=a.data.hex(), expected=exp.hex())
+    if REPLAY: note(literal=lit, observed=a.data.hex(), expected=exp.hex())
     return a.data == exp and a.is_ipv6() is True and a.get_length() == 26
 
 
@@ -419,7 +419,7 @@ def time_arith(days: int, seconds: int) -> bool:
         reached()
         return total >= 2 ** 32
     reached()
-    note(days=days, seconds=seconds, observed=a.data.hex(), expected=total)
+    if REPLAY: note(days=days, seconds=seconds, observed=a.data.hex(), expected=total)
     return total < 2 ** 32 and a.data == total.to_bytes(4, "big") and a.get_length() == 12
 
 
